@@ -482,6 +482,36 @@ func scripts() map[string]Script {
 		// each complete exit leaves validator-share dust that survives, and the last exit drains the asset
 		"drain-slashed": drainSlashed(false),
 		"drain-slashed-2": drainSlashed(true),
+		// dust-cohabitant: a large and a one-unit position share V2, which is then slashed by exactly 75% (zero-weight
+		// assets: no module stake, the effective fraction is the configured one): V2's stake is worth 400000.52,
+		// the large delegator exits with its reported 400000 and leaves 0.52 of a token behind for the one-unit
+		// position, which keeps its delegator share; entering and leaving V2 must keep working afterwards
+		"dust-cohabitant": func(g *Gen, c *Config) []Step {
+			c.NVals = 4
+			c.ValStake = []int64{3_000_000, 4_000_000, 5_000_000, 6_000_000}
+			c.Assets = []AssetSpec{
+				{Denom: "aaa", Weight: "0", WMin: "0", WMax: "10", TakeRate: "0", StartDelay: -int64(time.Hour), Mag: "1000000"},
+				{Denom: "bbb", Weight: "0", WMin: "0", WMax: "10", TakeRate: "0", StartDelay: -int64(time.Hour), Mag: "1000000"},
+			}
+			c.Fund = "10000000000"
+			c.UnbondingNs = int64(time.Hour)
+			c.SlashDouble = "0.75"
+			fee := "2000000stake"
+			return []Step{
+				{K: "delegate", A: 0, V: 1, Den: "aaa", Amt: "1000000"},
+				{K: "delegate", A: 1, V: 2, Den: "aaa", Amt: "1000000"},
+				{K: "delegate", A: 3, V: 2, Den: "aaa", Amt: "1"},
+				{K: "delegate", A: 4, V: 4, Den: "bbb", Amt: "500000"},
+				blk(6*time.Second, fee), blk(6*time.Second, fee),
+				{K: "block", Block: &BlockSpec{DtNs: int64(6 * time.Second), Fees: fee, Evidence: []Evidence{{Val: 2, HeightBack: 1}}}},
+				blk(6*time.Second, fee),
+				{K: "undelegate", A: 1, V: 2, Den: "aaa", Amt: "bal"},
+				blk(6*time.Second, fee), blk(6*time.Second, fee), blk(6*time.Second, fee), blk(6*time.Second, fee),
+				{K: "delegate", A: 2, V: 2, Den: "aaa", Amt: "500"},
+				{K: "undelegate", A: 2, V: 2, Den: "aaa", Amt: "bal"},
+				blk(6*time.Second, fee),
+			}
+		},
 		"drain-dust-a": drainDust(false),
 		"drain-dust-b": drainDust(true),
 		// gov-table: every governance message x every signer kind with otherwise valid fields, in the asset
@@ -748,11 +778,11 @@ func valueDefs() []*CheckDef {
 		},
 		{
 			Prop: "C05",
-			Scripts: []string{"validator-removed", "drain-slashed", "drain-dust-a", "drain-refill"},
+			Scripts: []string{"validator-removed", "drain-slashed", "drain-dust-a", "drain-refill", "dust-cohabitant"},
 			Runs: []ProfRun{{"core", 32, 600}, {"queue", 16, 300}, {"extreme", 24, 450}, {"native", 8, 150}},
 			Mons: func(r *Runner) []Monitor { return []Monitor{NewMonC12(r), NewMonC05(r)} },
 			ProbeEvery: 4,
-			Required: []string{"C05.state/slashes0", "C05.state/slashes1", "C05.state/slashes3", "C05.validator-removed"},
+			Required: []string{"C05.state/slashes0", "C05.state/slashes1", "C05.state/slashes3", "C05.validator-removed", "C05.sub-unit-remainder-after-exit"},
 			Rule: "after every k-th step of seeded histories (slashes of every fraction up to 100%, take-rate deductions, jailed/unbonded validators, warm-up) probe transactions on discarded branches: delegate 1 unit and a large amount of every asset to every validator, and for every position with a positive reported balance claim then undelegate the full reported balance, and undelegate from every delegation record whose validator record is gone; each must succeed; failures are matched against the recorded mechanisms (zero-value-validator, pool-short, precision-18dec) and are violations otherwise; a situation class = (slashes so far, jailed validators, number of positions)",
 			Assumptions: commonAssumptions,
 		},
